@@ -29,10 +29,24 @@ package fp
 // stages themselves (addition-chain exponentiation x -> (x^((Q+1)/2), x^Q) and the 8-bit-block discrete logarithm over the
 // precomputed tables and the dlog map) are assumed here and covered by the bounded stand-in of the thorough tier.
 
+// the closure SquareEqNTimes: n-fold squaring in place
+//@ func sqrtAlg_ComputeRelevantPowers$1
+//@ props C17
+//@ prelude field curve fppow
+//@ requires n >= 0
+//@ ensures *z == fp_sqn(old(*z), n)
+//@ modifies *z
+//@ let Z0 = *z
+//@ loop 0 invariant 0 <= i && i <= n && *z == fp_sqn(Z0, i)
+
+// the fixed addition chain: every intermediate value is a power of z with a numeral exponent (exponent abstraction fp_pow);
+// acc ends as z^((Q-1)/2), so rootOfUnity = z^Q and squareRootCandidate = z^((Q+1)/2). That z^Q is a 2^32-th root of unity
+// which is a square in that subgroup exactly when z is a square is number theory (axiom in spec/fppow.smt2, A3).
 //@ func sqrtAlg_ComputeRelevantPowers
-//@ assumed exponentiation stage of the square root: candidate = z^((Q+1)/2), root = z^Q with p-1 = Q*2^32, hence candidate^2 = z*root, root is a 2^32-th root of unity, and z is a square iff root is a square in that subgroup (Euler criterion); not discharged by this framework (fixed addition chain over F_p)
-//@ prelude field curve
+//@ props C17
+//@ prelude field curve fppow
 //@ requires z != squareRootCandidate && z != rootOfUnity && squareRootCandidate != rootOfUnity && *z != fp_zero
+//@ ensures *rootOfUnity == fp_pow(old(*z), FP_Q) && *squareRootCandidate == fp_pow(old(*z), (FP_Q + 1) / 2)
 //@ ensures (*squareRootCandidate) * (*squareRootCandidate) == old(*z) * (*rootOfUnity)
 //@ ensures dyadic(*rootOfUnity) && (dyadic_sq(*rootOfUnity) <==> fp_issquare(old(*z)))
 //@ modifies *squareRootCandidate, *rootOfUnity
